@@ -464,7 +464,8 @@ class MAAction(Case):
 
     LOW, HIGH = [-1.0, 0.5], [1.0, 0.75]
 
-    def __init__(self, algo, discrete, training, masked=False, env_defined=False, B=2, nA=None):
+    def __init__(self, algo, discrete, training, masked=False, env_defined=False, B=2, nA=None, mask_only_first=False):
+        self.mask_only_first = mask_only_first
         from agilerl.algorithms.maddpg import MADDPG
         from agilerl.algorithms.matd3 import MATD3
         self.algo, self.discrete, self.training, self.masked, self.env_defined, self.B = algo, discrete, training, masked, env_defined, B
@@ -472,7 +473,7 @@ class MAAction(Case):
         self.nA = nA or (3 if discrete else 2)
         self.functions = (self.cls.get_action,)
         self.site = f"{algo}.get_action"
-        self.name = f"{algo.lower()}-action-{'discrete' + str(self.nA) if discrete else 'box'}-{'train' if training else 'eval'}" + ("-mask" if masked else "") + ("-envdefined" if env_defined else "") + f"-B{B}"
+        self.name = f"{algo.lower()}-action-{'discrete' + str(self.nA) if discrete else 'box'}-{'train' if training else 'eval'}" + ("-mask" if masked else "") + ("-only-agent0-has-a-mask" if mask_only_first else "") + ("-envdefined" if env_defined else "") + f"-B{B}"
         self.bounds = {"agents": 2, "batch": B, "discrete": discrete, "training": training, "mask": masked, "env_defined_actions": env_defined,
                        "bounds": None if discrete else "per-dimension: low [-1, 0.5], high [1, 0.75]", "symbolic": "actor outputs, exploration noise, masks, env-defined actions"}
         self._agent = None
@@ -511,7 +512,7 @@ class MAAction(Case):
         if self.masked or self.env_defined:
             infos = {a: {} for a in ids}
         if self.masked:
-            for a in ids:
+            for a in (ids[:1] if self.mask_only_first else ids):          # (an environment may supply masks for some agents only)
                 m = v.array(f"mask_{a}", (B, nA), "flag")
                 for b in range(B):
                     v.assume(disj(*[eq(m[b, k], 1) for k in range(nA)]))
@@ -546,7 +547,7 @@ class MAAction(Case):
                     if defined.get((a, b)):
                         res.append(Ob(f"{a}/row{b}/environment-defined-action-is-returned", eq(x, eda[a][b]), site=self.site + "/env-defined-actions"))
                         continue
-                    if self.masked:
+                    if self.masked and a in masks:
                         res.append(Ob(f"{a}/row{b}/masked-action-never-chosen", disj(*[conj(eq(x, k), eq(masks[a][b, k], 1)) for k in range(nA)]), site=self.site + "/mask"))
             else:
                 act = np.asarray(cont[a])
@@ -742,6 +743,86 @@ class IPPOEnvDefined(Case):
         return res
 
 
+class IPPOGroupClip(Case):
+    """IPPO.get_action in evaluation mode with two groups of homogeneous agents whose Box action spaces differ: every agent's
+    action is clipped to ITS OWN bounds"""
+    stubs = ("actors / critics = stubs returning symbolic samples (one shared policy per group)",)
+    BOX = {"alpha": ([-1.0, -1.0], [1.0, 1.0]), "beta": ([-0.25, -3.0], [2.0, 0.5])}
+
+    def __init__(self, E=1):
+        from agilerl.algorithms.ippo import IPPO
+        self.E = E
+        self.functions = (IPPO.get_action,)
+        self.name = f"ippo-group-clip-eval-E{E}"
+        self.site = "IPPO.get_action/clip-with-own-bounds"
+        self.bounds = {"groups": "alpha (2 agents, Box [-1,1]^2), beta (1 agent, Box [-0.25,2] x [-3,0.5])", "num_envs": E, "symbolic": "policy samples"}
+        self._agent = None
+
+    def agent(self):
+        from agilerl.algorithms.ippo import IPPO
+        if self._agent is None:
+            try:
+                ids = ["alpha_0", "alpha_1", "beta_0"]
+                sp = {g: spaces.Box(np.array(lo, dtype=np.float32), np.array(hi, dtype=np.float32)) for g, (lo, hi) in self.BOX.items()}
+                self._agent = IPPO([spaces.Box(-1, 1, (1,))] * 3, [sp["alpha"], sp["alpha"], sp["beta"]], agent_ids=ids,
+                                   net_config={"encoder_config": {"hidden_size": [2]}, "head_config": {"hidden_size": [2]}})
+            except Exception as ex:   # noqa: BLE001
+                raise HarnessError(f"could not build IPPO: {type(ex).__name__}: {ex}")
+        return self._agent
+
+    def run(self, v):
+        import agilerl.algorithms.ippo as ippo_mod
+        E = self.E
+        agent = self.agent()
+        require(agent, "actors", "critics", "shared_agent_ids", "homogeneous_agents")
+        groups = list(agent.shared_agent_ids)
+        if sorted(groups) != ["alpha", "beta"]:
+            raise HarnessError(f"unexpected groups {groups}")
+        raw = {g: v.tensor(f"sample_{g}", (len(agent.homogeneous_agents[g]) * E, 2)) for g in groups}
+
+        def mk_actor(g):
+            class Actor:
+                squash_output = False
+
+                def __call__(self, x, action_mask=None):
+                    n = raw[g].shape[0]
+                    return raw[g], v.tensor(f"lp_{g}", (n,)), v.tensor(f"ent_{g}", (n,))
+
+                def eval(self):
+                    return self
+            return Actor()
+
+        def mk_critic(g):
+            class Critic:
+                def __call__(self, x):
+                    return v.tensor(f"val_{g}", (raw[g].shape[0], 1))
+
+                def eval(self):
+                    return self
+            return Critic()
+
+        obs = {a: v.array(f"o_{a}", (E, 1)) for a in agent.agent_ids}
+        patches = [(agent, "actors", [mk_actor(g) for g in groups]), (agent, "critics", [mk_critic(g) for g in groups]), (agent, "training", False)]
+        if v.mode != "real":
+            patches += [(au, "torch", ShimTorch()), (ippo_mod, "torch", ShimTorch())]
+        with patched(*patches):
+            act, _, _, _ = agent.get_action(obs)
+        res = []
+        for g in groups:
+            lo, hi = self.BOX[g]
+            for i, a in enumerate(agent.homogeneous_agents[g]):
+                arr = np.asarray(act[a])
+                ok = tuple(arr.shape) == (E, 2)
+                res.append(Ob(f"{a}/action-has-the-batch-shape", ok))
+                if not ok:
+                    continue
+                for e in range(E):
+                    for k in range(2):
+                        r = val(raw[g], i * E + e, k)
+                        res.append(Ob(f"{a}/env{e}/dim{k}/clipped-to-its-own-bounds", eq(arr[e, k], smin(smax(r, lo[k]), hi[k])), site=self.site))
+        return res
+
+
 def cases(tier):
     cs = [DQNAction(2, 3, True, False), DQNAction(2, 3, True, True), DQNAction(1, 2, False, False), DQNAction(2, 2, False, True),
           MaskedArgmaxAction("CQN", 2, 3, True), MaskedArgmaxAction("CQN", 2, 3, True, greedy=False), MaskedArgmaxAction("CQN", 2, 2, False, greedy=False),
@@ -752,7 +833,8 @@ def cases(tier):
           MAAction("MADDPG", False, True), MAAction("MADDPG", False, False), MAAction("MADDPG", True, True, masked=True, B=1, nA=2),
           MAAction("MADDPG", True, False, masked=True, B=1), MAAction("MATD3", False, True, B=1), MAAction("MATD3", True, False, masked=True, B=1),
           IPPOAction(True, False), IPPOAction(True, True), IPPOAction(False, False), IPPOAction(False, True, A=1, E=2),
-          IPPOEnvDefined(True), IPPOEnvDefined(False, A=2, E=1),
+          IPPOEnvDefined(True), IPPOEnvDefined(False, A=2, E=1), IPPOGroupClip(1),
+          MAAction("MATD3", True, False, masked=True, B=1, mask_only_first=True), MAAction("MADDPG", True, True, masked=True, B=1, nA=2, mask_only_first=True),
           MAAction("MADDPG", True, True, masked=True, env_defined=True, B=1, nA=2), MAAction("MADDPG", False, True, env_defined=True, B=1), MAAction("MATD3", True, False, env_defined=True, B=1)]
     # what the policy-gradient cases above assume of the policy head is decided on the REAL head (C16's harness): a squashed head
     # returns tanh(u) scaled into the box - also after recreate_network / clone / a latent mutation -, a masked head never returns
